@@ -583,7 +583,7 @@ func runSynthetic(sc *bw.Scenario, log *simkit.Log, out *simkit.Outcome) {
 	}
 	if sc.Manifest != nil {
 		dir := "/w/synth"
-		for _, d := range []string{"pkgdir", "pkgdir0", "pkgdir-old", "pkg", "..cache", "..."} {
+		for _, d := range []string{"pkgdir", "pkgdir0", "pkgdir-old", "pkg", "..cache", "...", "PKGDIR", "Pkg"} {
 			os.MkdirAll(dir+"/"+d+"/m1", 0o755)
 			os.WriteFile(dir+"/"+d+"/main.tf", []byte(d), 0o644)
 		}
